@@ -47,6 +47,18 @@ def gen(rng, tier):
             yield Case("purity", [alpha, rs, q], big, "purity-" + q)
         for c in ("clone", "clonebag", "subalign", "selectsites", "transpose", "bootstrap", "unalign", "sample", "randsub"):
             yield Case("alias", [alpha, rs, c], big, "alias-" + c)
+        # the same constructors on windows / site lists of every shape (a run of consecutive sites, scattered,
+        # reversed, repeated, a single site; interior windows; shorter random sub-alignments)
+        if L >= 2:
+            a0 = rng.randrange(L - 1)
+            b0 = rng.randint(a0 + 1, L - 1)
+            lists = [list(range(a0, b0 + 1)), sorted(rng.sample(range(L), rng.randint(1, L))),
+                     list(range(L - 1, -1, -1)), [rng.randrange(L) for _ in range(rng.randint(1, L + 2))], [rng.randrange(L)]]
+            for sl in lists:
+                yield Case("alias", [alpha, rs, "selectsites", ",".join(map(str, sl))], big, "alias-selectsites-list")
+            st = rng.randrange(L)
+            yield Case("alias", [alpha, rs, "subalign", "%d,%d" % (st, rng.randint(1, L - st))], big, "alias-subalign-window")
+            yield Case("alias", [alpha, rs, "randsub", "%d,%d" % (rng.randint(1, L), rng.randint(0, 1))], big, "alias-randsub-len")
         for mode in ("halves", "codon"):
             yield Case("aliassplit", [alpha, rs, mode], big and L >= 3, "alias-split-" + mode)
 
